@@ -46,6 +46,7 @@ type Step struct {
 type Ctl struct {
 	mode     atomic.Int32
 	arrivals chan *Arrival
+	off      atomic.Pointer[chan struct{}] // closed when controlled mode ends: goroutines parked at gates are let through
 
 	mu      sync.Mutex
 	roles   map[int64]string // gid -> role
@@ -168,8 +169,19 @@ func (c *Ctl) gate(pt string, obj, n int) {
 	}
 	c.mu.Unlock()
 	a.Role = role
-	c.arrivals <- a
-	<-a.release
+	offp := c.off.Load()
+	if offp == nil || c.mode.Load() != ModeCtl {
+		return
+	}
+	select {
+	case c.arrivals <- a:
+	case <-*offp:
+		return
+	}
+	select {
+	case <-a.release:
+	case <-*offp: // controlled mode ended while we were parked (or about to park): pass through
+	}
 }
 
 // Register names the calling goroutine (drivers).
@@ -412,6 +424,8 @@ func (c *Ctl) Begin(o Options) {
 		}
 	}
 	debug.SetGCPercent(-1)
+	off := make(chan struct{})
+	c.off.Store(&off)
 	c.mode.Store(ModeCtl)
 }
 
@@ -718,6 +732,13 @@ func (c *Ctl) choose(o Options) (a *Arrival, idle bool, diverged bool) {
 // End switches the hooks to pass-through and releases everything that is still gated.
 func (c *Ctl) End() {
 	c.mode.Store(ModeOff)
+	if offp := c.off.Load(); offp != nil {
+		select {
+		case <-*offp:
+		default:
+			close(*offp)
+		}
+	}
 	for {
 		c.drain()
 		if len(c.gated) == 0 {
